@@ -330,6 +330,7 @@ Section AccumProofs.
     | DEvaluateDW _ => False
     | DSide _ _ => False          (* side evaluations: see the section on side evaluations below *)
     | DEstimate _ => True
+    | DFinalCombi _ => False      (* public re-evaluation between legs: see final_combi_is_identity below *)
     end.
 
   Fixpoint wf_from (clear : bool) (s : astate) (steps : list (dstep V)) : Prop :=
@@ -341,12 +342,13 @@ Section AccumProofs.
   Theorem running_total_inv steps : forall s, Inv2 s -> wf_from true s steps -> Inv2 (run_steps true steps s).
   Proof.
     induction steps as [|st r IH]; intros s H W; cbn; [exact H|]. destruct W as [Wk Wr].
-    apply IH; [|exact Wr]. destruct st as [parts|removed added|xs|sid sx|sid]; cbn [Accum.apply_step].
+    apply IH; [|exact Wr]. destruct st as [parts|removed added|xs|sid sx|sid|fparts]; cbn [Accum.apply_step].
     - apply inv2_evaluate_clear. exact H.
     - apply inv2_refine; [exact (proj1 H)|exact Wk].
     - destruct Wk.
     - destruct Wk.
     - exact H.
+    - destruct Wk.
   Qed.
 
   (* ---------------------------------------------------------------- the loop as the code runs it: evaluate (refine evaluate)* *)
@@ -649,6 +651,111 @@ Section AccumProofs.
     rewrite E. destruct s; reflexivity.
   Qed.
 
+  (* ================================================================ evaluate_final_combi() on the live object between two legs *)
+  (* the evaluation events of one area add the sum of its parts to its stored value and touch no other area *)
+  Lemma evals_one_get id xs : forall s v, area_get id (st_areas s) = Some v ->
+    area_get id (st_areas (apply_events (map (fun x => AEval id x true true) xs) s)) = Some (vadd v (vsum xs)) /\
+    forall id', id <> id' -> area_get id' (st_areas (apply_events (map (fun x => AEval id x true true) xs) s)) = area_get id' (st_areas s).
+  Proof.
+    induction xs as [|x xs IH]; intros s v G; cbn [map Accum.vsum].
+    - cbn. rewrite vadd_0_r. auto.
+    - change (apply_events (AEval id x true true :: map (fun x0 => AEval id x0 true true) xs) s)
+        with (apply_events (map (fun x0 => AEval id x0 true true) xs) (apply_event s (AEval id x true true))).
+      assert (G1 : area_get id (st_areas (apply_event s (AEval id x true true))) = Some (vadd v x)).
+      { cbn [Accum.apply_event st_areas]. unfold Accum.area_val. rewrite G. apply area_get_set_same. }
+      destruct (IH _ _ G1) as [A B]. split.
+      + rewrite A. rewrite <- vadd_assoc. reflexivity.
+      + intros id' N. rewrite (B id' N). cbn [Accum.apply_event st_areas]. apply area_get_set_other. exact N.
+  Qed.
+
+  Lemma evals_all_get parts l : NoDup l -> forall s, (forall i, In i l -> area_get i (st_areas s) <> None) ->
+    forall id, area_get id (st_areas (apply_events (flat_map (eval_area_events parts) l) s)) =
+      if memZ id l then (match area_get id (st_areas s) with Some v => Some (vadd v (vsum (parts id))) | None => None end)
+      else area_get id (st_areas s).
+  Proof.
+    induction 1 as [|a l Hnot Hnd IH]; intros s H id; [reflexivity|].
+    cbn [flat_map]. unfold Accum.apply_events. rewrite fold_left_app. fold (apply_events (eval_area_events parts a) s).
+    fold (apply_events (flat_map (eval_area_events parts) l) (apply_events (eval_area_events parts a) s)).
+    destruct (area_get a (st_areas s)) as [va|] eqn:Ga; [|exfalso; apply (H a (or_introl eq_refl)); exact Ga].
+    unfold Accum.eval_area_events at 2. destruct (evals_one_get a (parts a) s va Ga) as [A B].
+    unfold Accum.eval_area_events at 1.
+    rewrite IH.
+    - cbn [memZ]. destruct (a =? id) eqn:E.
+      + apply Z.eqb_eq in E. subst id. cbn [orb].
+        assert (M : memZ a l = false).
+        { destruct (memZ a l) eqn:M; [|reflexivity]. apply memZ_In in M. contradiction. }
+        rewrite M, A, Ga. reflexivity.
+      + apply Z.eqb_neq in E. cbn [orb]. rewrite (B id E). reflexivity.
+    - intros i Hi. destruct (Z.eq_dec a i) as [->|N]; [contradiction|]. rewrite (B i N). apply H. right. exact Hi.
+  Qed.
+
+  (* a re-evaluation from scratch of a consistent state in which nothing is marked new IS the identity on the machine state *)
+  Theorem final_combi_is_identity parts s :
+    Inv s -> Consistent parts s -> reevaluate parts s = s.
+  Proof.
+    intros [Hn [T C]] Cs.
+    assert (Eids : ids (reevaluate parts s) = ids s) by apply reevaluate_ids.
+    destruct (reevaluate_total parts s) as [RT RC].
+    assert (Esum : vsum (flat_map parts (ids s)) = st_total s).
+    { rewrite T. symmetry. apply consistent_sum. exact Cs. }
+    assert (EA : st_areas (reevaluate parts s) = st_areas s).
+    { apply same_ids_same_get; [exact Eids|fold (ids (reevaluate parts s)); rewrite Eids; exact Hn|].
+      intro id. unfold Accum.reevaluate.
+      set (s0 := mkA (st_areas s) (st_new s) vzero vzero).
+      assert (I0 : forall i, In i (map fst (st_areas s)) -> In i (ids s0)) by (intros i Hi; exact Hi).
+      assert (Ipre : ids (apply_events (map APre (map fst (st_areas s))) s0) = ids s0) by (apply pre_ids; exact I0).
+      rewrite (evals_all_get parts (map fst (st_areas s)) Hn).
+      - rewrite (pre_get (map fst (st_areas s)) s0 id I0). cbn [s0 st_areas].
+        destruct (memZ id (map fst (st_areas s))) eqn:M.
+        + destruct (area_get id (st_areas s)) as [v|] eqn:G.
+          * rewrite vadd_0_l. f_equal. symmetry. apply (Cs id v).
+            clear - G. induction (st_areas s) as [|[i u] r IHr]; cbn in G; [discriminate|].
+            destruct (i =? id) eqn:E; [apply Z.eqb_eq in E; subst; injection G as ->; left; reflexivity|right; apply IHr; exact G].
+          * reflexivity.
+        + reflexivity.
+      - intros i Hi. apply area_get_In. fold (ids (apply_events (map APre (map fst (st_areas s))) s0)). rewrite Ipre. exact Hi. }
+    assert (EN : st_new (reevaluate parts s) = st_new s).
+    { unfold Accum.reevaluate.
+      set (s0 := mkA (st_areas s) (st_new s) vzero vzero).
+      destruct (inv_evals parts (map fst (st_areas s)) (apply_events (map APre (map fst (st_areas s))) s0)) as [_ [_ N]].
+      - destruct (pre_total (map fst (st_areas s)) s0) as [P1 [P2 _]].
+        assert (Ipre : ids (apply_events (map APre (map fst (st_areas s))) s0) = ids s0) by (apply pre_ids; intros i Hi; exact Hi).
+        unfold Inv. rewrite Ipre, P1, P2. cbn [s0 st_total st_cont]. unfold ids at 1. cbn [s0 st_areas]. split; [exact Hn|]. split; [|reflexivity].
+        (* after area_preprocessing of all areas every stored value is zero *)
+        assert (Z0 : forall p, In p (st_areas (apply_events (map APre (map fst (st_areas s))) s0)) -> snd p = vzero).
+        { intros [i v] Hin. assert (Nd : NoDup (map fst (st_areas (apply_events (map APre (map fst (st_areas s))) s0)))) by (fold (ids (apply_events (map APre (map fst (st_areas s))) s0)); rewrite Ipre; exact Hn).
+          pose proof (nodup_get i v _ Nd Hin) as G. rewrite (pre_get (map fst (st_areas s)) s0 i (fun j Hj => Hj)) in G.
+          assert (M : memZ i (map fst (st_areas s)) = true).
+          { apply memZ_In. change (In i (ids s0)). rewrite <- Ipre. unfold ids. apply in_map_iff. exists (i, v). auto. }
+          rewrite M in G. destruct (area_get i (st_areas s0)); [injection G as <-; reflexivity|discriminate]. }
+        clear - Z0 vadd_0_l. induction (st_areas (apply_events (map APre (map fst (st_areas s))) s0)) as [|p r IHr]; [reflexivity|].
+        cbn. rewrite (Z0 p (or_introl eq_refl)), vadd_0_l. apply IHr. intros q Hq. apply Z0. right. exact Hq.
+      - intros i Hi. assert (Ipre : ids (apply_events (map APre (map fst (st_areas s))) s0) = ids s0) by (apply pre_ids; intros j Hj; exact Hj).
+        rewrite Ipre. exact Hi.
+      - rewrite N. destruct (pre_total (map fst (st_areas s)) s0) as [_ [_ P3]]. rewrite P3. reflexivity. }
+    destruct (reevaluate parts s) as [ar nw tt cc]. destruct s as [ar0 nw0 tt0 cc0]. cbn [st_areas st_new st_total st_cont ids] in *.
+    subst ar nw. rewrite RT, RC, Esum. f_equal. symmetry. exact C.
+  Qed.
+
+  (* hence continuing after it gives the same states (reported value, container value, every area) at every later stop *)
+  Corollary final_combi_then_continue_unchanged parts steps s :
+    Inv s -> Consistent parts s -> run_steps true steps (reevaluate parts s) = run_steps true steps s.
+  Proof. intros H Cs. rewrite (final_combi_is_identity parts s H Cs). reflexivity. Qed.
+
+  (* ... whereas a re-evaluation that leaves every object marked new makes the NEXT evaluation add everything once more *)
+  Theorem final_combi_marking_new_doubles parts s : Inv s -> Consistent parts s ->
+    st_total (final_combi_marks_new V vzero vadd vopp parts s) = st_total s /\
+    st_total (evaluate_new true parts (final_combi_marks_new V vzero vadd vopp parts s)) = vadd (st_total s) (st_total s).
+  Proof.
+    intros H Cs. unfold Accum.final_combi_marks_new. rewrite (final_combi_is_identity parts s H Cs). cbn [st_areas st_total st_cont].
+    split; [reflexivity|]. destruct H as [Hn [T C]].
+    unfold Accum.evaluate_new. cbn [st_new st_areas st_total st_cont].
+    set (s1 := mkA (st_areas s) (map fst (st_areas s)) (st_total s) (st_cont s)).
+    destruct (evals_total parts (map fst (st_areas s)) (apply_events (map APre (map fst (st_areas s))) s1)) as [E1 _].
+    cbn [st_total]. rewrite E1. destruct (pre_total (map fst (st_areas s)) s1) as [P1 _]. rewrite P1. unfold s1. cbn [st_total].
+    rewrite <- (consistent_sum parts (st_areas s) Cs), <- T. reflexivity.
+  Qed.
+
   (* the driver with interleaved side / estimate evaluations *)
   Definition stepx_ok (s : astate) (st : dstep V) : Prop :=
     match st with
@@ -657,6 +764,7 @@ Section AccumProofs.
     | DEvaluateDW _ => False
     | DSide id _ => side_ok s id
     | DEstimate _ => True
+    | DFinalCombi parts => st_new s = [] /\ Consistent parts s      (* between two legs: after an evaluation, on the current scheme *)
     end.
 
   Fixpoint wfx_from (s : astate) (steps : list (dstep V)) : Prop :=
@@ -677,7 +785,7 @@ Section AccumProofs.
     destruct Ht as [Hi Hz]. pose proof Hi as [Hn _].
     assert (Hsub : forall i, In i (st_new s) -> In i (ids s)).
     { intros i Hin. rewrite Eids. apply area_get_In. rewrite Enew in Hin. rewrite (Hz i Hin). discriminate. }
-    destruct st as [parts|removed added|xs|id x|id]; cbn [Accum.run_steps fold_left Accum.strip_sides filter Accum.is_side negb Accum.apply_step] in *.
+    destruct st as [parts|removed added|xs|id x|id|fparts]; cbn [Accum.run_steps fold_left Accum.strip_sides filter Accum.is_side negb Accum.apply_step] in *.
     - (* evaluate *)
       fold (run_steps true r (evaluate_new true parts s)). fold (strip_sides r). fold (run_steps true (strip_sides r) (evaluate_new true parts t)).
       assert (Es : evaluate_new true parts s = evaluate_new true parts t).
@@ -696,6 +804,11 @@ Section AccumProofs.
       apply IH; [split; assumption| |exact Wr]. rewrite side_invisible; [exact E|exact Wk].
     - (* estimate *)
       fold (run_steps true r s). fold (strip_sides r). apply IH; [split; assumption|exact E|exact Wr].
+    - (* public evaluate_final_combi between two legs: the identity on both machines *)
+      fold (run_steps true r (reevaluate fparts s)). fold (strip_sides r). fold (run_steps true (strip_sides r) (reevaluate fparts t)).
+      destruct Wk as [Wn Wc]. rewrite (zero_new_clear s Wn) in E. subst t.
+      rewrite (final_combi_is_identity fparts s Hi Wc) in *.
+      apply IH; [split; assumption|apply zero_new_clear; exact Wn|exact Wr].
   Qed.
 
   (* the accumulator invariant of a driver with side evaluations: Inv2 modulo blanking *)
@@ -720,6 +833,7 @@ Section AccumProofs.
     destruct (side_evaluations_invisible steps s s H (zero_new_fix s (proj1 (proj1 H)) (proj2 H)) W) as [E [[_ [T _]] _]].
     rewrite <- T, <- E. unfold Accum.zero_new. cbn [st_total st_cont]. auto.
   Qed.
+
 
   (* ================================================================ recalculate_frequently *)
   (* as it is: every area is evaluated again on top of the kept running total *)
